@@ -187,7 +187,7 @@ func (e *balEngine) run() {
 	for i := range funded {
 		funded[i] = Chance(t, "funded", 75)
 	}
-	ops := rapid.SliceOfN(rapid.Custom(genBalOp), 1, 60).Draw(t, "ops")
+	ops := OpsSlice(t, rapid.Custom(genBalOp), 60)
 
 	w := e.r.Own(NewFSWorld(FSOpts{N: n, Label: "bal", With: []string{"netmap", "balance"}}))
 	e.w = w
